@@ -36,6 +36,8 @@ LEVEL_NOTE = ("Trusted: Lean kernel + standard axioms; the differential tie mode
               "level, every run); values compared only through <,<=,== (interned order-preservingly); bisect/sorted/set "
               "of CPython; numpy searchsorted/interp inside process_val_weights (oracle-checked, not modelled).")
 TECHNIQUE = "Lean 4 proof (loop invariant over an executable transliteration) + differential correspondence + property oracle on the real code"
+TRUSTED = ["Lean 4 kernel, axioms propext / Classical.choice / Quot.sound", "harness/props/c45.py differential tie (function level, "
+           "exhaustive small space on every run)", "CPython bisect/sorted/set; NumPy inside process_val_weights (oracle-checked only)"]
 ASSUMPTIONS = ["values are compared only through <, <=, == (interned order-preservingly to Nat for the model)",
                "bisect.bisect_left on a sorted list = number of leading elements < x"]
 
